@@ -568,6 +568,16 @@ func ruleIdx10(c *Ctx, r *Reporter) {
 			// filter set (or not tested at all): the list must be what Filter returned for it
 			v := stripValue(res[pi][0])
 			filtered := false
+			// a single document fed to base.Add: gated like Index.Add gates it (Match(doc, Partial) came out true)
+			if f.Name() == "Add" {
+				for _, d := range p {
+					if ex, ok := d.cond.(*ssa.Extract); ok && ex.Index == 0 && d.taken {
+						if mc, ok := ex.Tuple.(*ssa.Call); ok && calleeFull(&mc.Call) == pkgMongokit+".Match" && len(mc.Call.Args) == 2 && stripValue(mc.Call.Args[0]) == stripValue(arg) && isPartialLoad(mc.Call.Args[1]) {
+							filtered = true
+						}
+					}
+				}
+			}
 			if ex, ok := v.(*ssa.Extract); ok && ex.Index == 0 {
 				if fc, ok := ex.Tuple.(*ssa.Call); ok && calleeObj(&fc.Call) == filterF && len(fc.Call.Args) >= 2 && isPartialLoad(fc.Call.Args[1]) {
 					filtered = true
